@@ -21,7 +21,9 @@ Section C22.
             (k : skeleton) (fuel : nat)
             (join_lines : list Code -> Code) (Out : Type)
             (show_print : P -> Out) (show_value : V -> list Out)
-            (show_diag : failure M EA EB EC -> Out) (stopped : Out).
+            (show_diag : failure M EA EB EC -> Out) (stopped : Out)
+            (prelude_code : Code) (msg_prelude msg_init stopped_repl : Out)
+            (is_blank is_quit : Code -> bool).
   Let cli := cli M M_eqb Code S importer parse A B C T1 T2 EA EB EC V P transform check run
                  k fuel join_lines Out show_print show_value show_diag stopped.
   Let outcomes c file exprs :=
@@ -73,8 +75,56 @@ Section C22.
     exact (cli_e_is_file M M_eqb Code S importer parse A B C T1 T2 EA EB EC V P transform
              check run k fuel join_lines Out show_print show_value show_diag stopped).
   Qed.
+  (* ---- phase 2: the arguments that decide what is evaluated ---- *)
+  Let cli_full := cli_full M M_eqb Code S importer parse A B C T1 T2 EA EB EC V P transform check run
+                           k fuel join_lines Out show_print show_value show_diag stopped
+                           prelude_code msg_prelude msg_init stopped_repl is_blank is_quit.
+  Let run_inputs := run_inputs M M_eqb Code S importer parse A B C T1 T2 EA EB EC V P transform check run
+                               k fuel Out show_print show_value show_diag stopped.
+
+  (* With prelude loading, the user init file, file + several -e, and the REPL that
+     follows under --inspect-interactively (or without file/-e) on a non-terminal
+     stdin: the run has the exit status and the stdout of "evaluate, in this order,
+     the prelude import (unless --no-prelude), the init file (unless --no-prelude or
+     --no-init), the file, the joined -e expressions, the non-blank stdin lines up
+     to quit/exit; stop at the first failure" — so C22_exit / C22_streams apply to
+     that list —, and stderr is empty iff the status is 0. *)
+  Theorem C22_args :
+    forall cfg c init_file file exprs stdin,
+      agree Out (cli_full cfg c init_file file exprs stdin)
+            (run_inputs c (stage_inputs M Code join_lines prelude_code is_blank is_quit
+                                        cfg init_file file exprs stdin) []).
+  Proof.
+    exact (cli_full_as_inputs M M_eqb Code S importer parse A B C T1 T2 EA EB EC V P transform check run
+             k fuel join_lines Out show_print show_value show_diag stopped
+             prelude_code msg_prelude msg_init stopped_repl is_blank is_quit).
+  Qed.
+
+  Theorem C22_no_prelude_implies_no_init :
+    forall no_init insp c init_file file exprs stdin,
+      cli_full (config_of_args true no_init insp) c init_file file exprs stdin
+      = cli_full (config_of_args true true insp) c None file exprs stdin.
+  Proof.
+    exact (no_prelude_implies_no_init M M_eqb Code S importer parse A B C T1 T2 EA EB EC V P transform check run
+             k fuel join_lines Out show_print show_value show_diag stopped
+             prelude_code msg_prelude msg_init stopped_repl is_blank is_quit).
+  Qed.
+
+  Theorem C22_stdin_ignored_without_inspect :
+    forall no_prelude no_init c init_file file exprs stdin,
+      (is_none file && is_none exprs = false)%bool ->
+      cli_full (config_of_args no_prelude no_init false) c init_file file exprs stdin
+      = cli_full (config_of_args no_prelude no_init false) c init_file file exprs [].
+  Proof.
+    exact (stdin_ignored_without_inspect M M_eqb Code S importer parse A B C T1 T2 EA EB EC V P transform check run
+             k fuel join_lines Out show_print show_value show_diag stopped
+             prelude_code msg_prelude msg_init stopped_repl is_blank is_quit).
+  Qed.
 End C22.
 
+Print Assumptions C22_args.
+Print Assumptions C22_no_prelude_implies_no_init.
+Print Assumptions C22_stdin_ignored_without_inspect.
 Print Assumptions C22_exit.
 Print Assumptions C22_exit_0_or_1.
 Print Assumptions C22_streams.
@@ -90,4 +140,15 @@ Example C22_nonvacuous :
   = ("exit=1|out=2 ua" ++ rs ++ "2 ua|err=1")%string
   /\ show_cli_line current_skeleton ("Eprint(7)" ++ tab ++ "E1 + 2")%string
      = ("exit=0|out=7" ++ rs ++ "3|err=0")%string.
+Proof. vm_compute. split; reflexivity. Qed.
+
+(* with --inspect-interactively the lines on stdin are evaluated after the -e
+   expression, up to `quit`; an init file is ignored under --no-prelude *)
+Example C22_nonvacuous_args :
+  show_cli_full_line current_skeleton
+    ("Glet x = 5" ++ tab ++ "Eunit ua" ++ tab ++ "i" ++ tab ++ "Zua + ua" ++ tab ++ "Z" ++ tab
+       ++ "Zprint(ua)" ++ tab ++ "Zquit" ++ tab ++ "Zx")%string
+  = ("exit=0|out=2 ua" ++ rs ++ "1 ua|err=0")%string
+  /\ show_cli_full_line current_skeleton ("E1" ++ tab ++ "i" ++ tab ++ "Z1 / 0" ++ tab ++ "Z2")%string
+     = "exit=1|out=1|err=1"%string.
 Proof. vm_compute. split; reflexivity. Qed.
